@@ -198,7 +198,7 @@ j_c09 = j_and(j_orc("frame"), j_notes(r"$^", "", ""))
 j_c15w = j_notes(r"SINK-FAILURE-NOT-REPORTED|SINK-NOT-PREFIX-OF-FAULT-FREE", "sink failure not reported faithfully", "the failure is returned at the latest by Close; the sink holds a prefix of the fault-free output")
 j_c15r = j_notes(r"TRUNC-ACCEPTED|NOT-PREFIX|WRONG-CONTENT|EXPECTED-\S+", "source failure / fragmentation mishandled", "the injected error, prefix delivered; fragmentation irrelevant")
 j_c16 = j_c02r
-j_c17w = j_notes(r"SECOND-CLOSE-EMITS|FLUSH-PREFIX-FAIL|WRITE-AFTER-CLOSE-ACCEPTED|ROUNDTRIP-FAIL\S*", "Writer lifecycle broken", "reference model")
+j_c17w = j_notes(r"SECOND-CLOSE-EMITS|FLUSH-PREFIX-FAIL|WRITE-AFTER-CLOSE-ACCEPTED|DIFFERS-FROM-FRESH-WRITER|ROUNDTRIP-FAIL\S*", "Writer lifecycle broken", "reference model; a reused Writer emits what a new one with the same options emits")
 j_c17r = j_notes(r"READ-AFTER-EOF-CONSUMES|WRONG-CONTENT", "Reader lifecycle broken", "reference model")
 
 
